@@ -88,13 +88,13 @@ static bool equal_bv(const BinsonValue &v, const Node &n) {
 }
 
 // ---------------------------------------------------------------- one operation; everything allocated inside is gone at return
-struct Case { int op; int ovl; const Node *tree; const Bytes *ref; const Bytes *bytes; bool verify_ok; uint64_t order_seed; int max_depth; };
+struct Case { int op; int ovl; const Node *tree; const Bytes *ref; const Bytes *bytes; bool verify_ok; uint64_t order_seed; int max_depth; int pre; };
 struct Status { int outcome = 0; bool correct = true; bool recovered = true; char detail[200] = {0}; uint64_t allocs = 0; };
 enum { OUT_NORMAL = 0, OUT_STDEXC = 1, OUT_BADALLOC = 2, OUT_OTHER = 3 };
 
 static void note(Status &st, const char *msg) { if (!st.detail[0]) { strncpy(st.detail, msg, sizeof st.detail - 1); } st.correct = false; }
 
-static void deser(Binson &d, int ovl, const Bytes &bytes, int max_depth) {
+static void deser(Binson &d, int ovl, const Bytes &bytes, int max_depth, int pre = 0) {
     static const uint8_t dummy = 0;
     const uint8_t *ptr = bytes.empty() ? &dummy : bytes.data();
     if (ovl == 0) { std::vector<uint8_t> v(bytes.begin(), bytes.end()); d.deserialize(v); }
@@ -105,6 +105,15 @@ static void deser(Binson &d, int ovl, const Bytes &bytes, int max_depth) {
         binson_parser p;
         memset(&p, 0, sizeof p); p.max_depth = BINSON_PARSER_DEFAULT_DEPTH; p.state = st;
         binson_parser_init(&p, ptr, bytes.size());           // result deliberately ignored: the overload must cope (it resets)
+        // the caller's parser may have been used before: the overload documents a reset, so none of this may matter
+        switch (pre) {
+            case 1: binson_parser_get_name(&p); break;                                           // failed call that consumed nothing (STATE latched)
+            case 2: binson_parser_field_with_length(&p, nullptr, 1); break;                      // NULL error latched at the start
+            case 3: binson_parser_go_into_object(&p); binson_parser_next(&p); binson_parser_next(&p); break;   // abandoned traversal
+            case 4: binson_parser_verify(&p); break;
+            case 5: binson_parser_go_into_object(&p); binson_parser_next_ensure(&p, BINSON_TYPE_NONE); break;  // WRONG_TYPE (or the document's own error) latched inside
+            default: break;
+        }
         d.deserialize(&p);
     }
 }
@@ -117,10 +126,10 @@ static void body(const Case &cs, Status &st, uint64_t fail_at) {
             build(b, *cs.tree, cs.order_seed);
             std::vector<uint8_t> ser = b.serialize();
             if (ser.size() != cs.ref->size() || (ser.size() && memcmp(ser.data(), cs.ref->data(), ser.size()) != 0)) note(st, "serialize() differs from the canonical encoding");
-            deser(d, cs.ovl, *cs.ref, cs.max_depth);
+            deser(d, cs.ovl, *cs.ref, cs.max_depth, cs.pre);
             if (!equal_obj(d, *cs.tree)) note(st, "deserialize(serialize(x)) != x");
         } else if (cs.op == 1) {
-            deser(d, cs.ovl, *cs.bytes, cs.max_depth);
+            deser(d, cs.ovl, *cs.bytes, cs.max_depth, cs.pre);
             std::vector<uint8_t> ser = d.serialize();
             if (ser.size() != cs.bytes->size() || (ser.size() && memcmp(ser.data(), cs.bytes->data(), ser.size()) != 0)) note(st, "serialize(deserialize(bytes)) != bytes");
         } else if (cs.op == 3) {
@@ -129,7 +138,7 @@ static void body(const Case &cs, Status &st, uint64_t fail_at) {
             std::string t = b.toStr();
             (void)t;
         } else {
-            deser(d, cs.ovl, *cs.bytes, cs.max_depth);
+            deser(d, cs.ovl, *cs.bytes, cs.max_depth, cs.pre);
         }
         st.outcome = OUT_NORMAL;
     } catch (const std::bad_alloc &) { st.outcome = OUT_BADALLOC; }
@@ -182,6 +191,7 @@ Plan cppwrap_generate(uint64_t base, const std::string &prop, uint64_t index, in
     p.par["order"] = (int64_t)(ro.next() >> 8);
     p.par["f9"] = (op != 2 && ro.chance(1, 2)) ? 1 : 0;
     p.par["only_k"] = 0;
+    p.par["pre"] = ro.chance(1, 2) ? (int64_t)ro.below(6) : 0;      // overload 2 only: what the caller's parser was used for before
     if (op == 2) {
         unsigned m = (unsigned)rf.below(100);
         if (m < 6) { p.doc.clear(); p.faults.push_back("raw:empty"); }
@@ -215,7 +225,7 @@ Result cppwrap_execute(const Plan &p, const ExecCtx &c) {
         verify_ok = a.ret && q.call(mk(P_VERIFY)).ret;
         if (op != 2 && !verify_ok) { r.invalid_plan = true; r.detail = "generated tree exceeds the wrapper's depth limit"; return r; }
     }
-    Case cs{op, ovl, have_tree ? &tree : nullptr, have_tree ? &ref : nullptr, &p.doc, verify_ok, (uint64_t)p.P("order"), 10};
+    Case cs{op, ovl, have_tree ? &tree : nullptr, have_tree ? &ref : nullptr, &p.doc, verify_ok, (uint64_t)p.P("order"), 10, (int)p.P("pre")};
     // ---- fault-free configuration
     long live0 = g_live.load();
     Status st;
